@@ -87,6 +87,19 @@ def main(v: Verdict) -> None:
             kw = {"opts": Opts(nc=True), "out": work / "deep" / "missing" / "dir"}
         jobs.append({"src": d, "timeout": 600, **kw})
         meta.append((d.name, ["abs", "abs+nc", "relative", "nested-missing+nc"][variant]))
+    # universe U2 (two interacting declarations, package files with declarations, same-named modules ...): same judgement of the writes
+    scs2 = generate(v, "Package2", "Topo2_MC.cfg", min_records=50)
+    for k, sc in enumerate(scs2):
+        sc["id"] = 5000 + k
+        if sc.get("variant") in ("samemodule", "pkgmodreexp"):       # a module re-exported as a whole keeps its own name as file name
+            aliases[f"s{sc['id']:04d}"] = [topo.u2_names(sc)["m1"] if sc["variant"] == "samemodule" else "deep"]
+    for c in range(0, len(scs2), 30):
+        root = f"toptwo{c // 30:02d}"
+        files = {"__init__.py": ""}
+        for sc in scs2[c:c + 30]:
+            files.update(topo.u2_files(sc, root))
+        jobs.append({"src": write_pkg(files, root), "timeout": 600, "opts": Opts(nc=bool((c // 30) % 2))})
+        meta.append((root, f"universe-U2 nc={bool((c // 30) % 2)}"))
     # the directory given with -s is not the package but its parent / grandparent: the inventory is still named after that directory
     for k, (d, chunk) in enumerate(packs[:2]):
         jobs.append({"src": d.parent, "timeout": 600, "opts": Opts(nc=bool(k))})
